@@ -4,7 +4,7 @@
    contracts (hypotheses on the cipher/MAC/AEAD oracles): Spec/C01_Contracts.v. *)
 From Coq Require Import ZArith List Bool.
 From TV Require Import Base.Prelude Spec.CbcCheck Model.C01_RecordPipe Spec.C01_Contracts
-  Proofs.C01_Lists Proofs.C01_Fragment Proofs.C01_RoundTrip Proofs.C01_Delivery Proofs.C01_ToyOk Proofs.C01_Close.
+  Proofs.C01_Lists Proofs.C01_Fragment Proofs.C01_RoundTrip Proofs.C01_Delivery Proofs.C01_ToyOk Proofs.C01_Close Model.C02_RecordAccept Proofs.C02_Round3.
 Import ListNotations.
 Open Scope Z_scope.
 
@@ -163,6 +163,13 @@ Proof. exact read_calls_c_spec. Qed.
 Theorem read_after_close_drains : forall (m mn : Z) (buf : list Z) (arr : list arrival),
   read_call_c (Some m) mn buf true arr = (ztake m buf, zdrop m buf, true, arr).
 Proof. exact drain_after_close_l. Qed.
+
+(* ---- TLS 1.3 KeyUpdate ratchet: for EVERY sequence of KeyUpdates sent (requested or not, by either
+   endpoint) and processed (with the automatic answer), at both ends the stored traffic secrets are the
+   secrets of the installed keys, and each sender's write generation = the peer's read generation + the
+   KeyUpdates still in flight -- so data written after any number of KeyUpdates stays readable *)
+Theorem keyupdate_ratchet_in_step : forall ops : list ku_op, ku_inv (fold_left ku_step ops ku_init).
+Proof. exact (fun ops => ku_run_inv ops ku_init ku_init_inv). Qed.
 
 (* ---- record_size_limit: what the negotiation code installs as send_record_limit ------------------- *)
 Theorem limit_in_force : forall (tls13 client : bool) (ext : Z),
